@@ -72,7 +72,56 @@ def main():
                     return _lru_cache_wrapper.__call__(self, *a, **kw)
                 except TypeError:
                     pass  # unhashable argument: fall through to the uncached call
+        if mod.split(".")[0] in ("codemodder", "core_codemods"):
+            # The repo's own caches ARE part of the behaviour under test (a stale cache is a defect a run can
+            # observe).  Model one process per path: the cache is live within a path and empty at its start; only
+            # calls whose arguments are all concrete plain values are cached.
+            with _NoTracing():
+                key = _concrete_key(a, kw)
+                if key is not None:
+                    space = _current_space()
+                    slot = _PER_PATH.get(id(self))
+                    if slot is None or slot[0] is not space:
+                        slot = _PER_PATH[id(self)] = (space, {})
+                    if key in slot[1]:
+                        return slot[1][key]
+            res = self.__wrapped__(*a, **kw)
+            if key is not None:
+                with _NoTracing():
+                    slot[1][key] = res
+            return res
         return self.__wrapped__(*a, **kw)
+
+    _PER_PATH = {}
+    _PLAIN = (str, int, bool, bytes, float, type(None))
+
+    def _plain(x):
+        import pathlib
+
+        t = type(x)
+        if t in _PLAIN or issubclass(t, pathlib.PurePath):
+            return True
+        if t in (tuple, frozenset):
+            return all(_plain(y) for y in x)
+        return False
+
+    def _concrete_key(a, kw):
+        try:
+            if all(_plain(x) for x in a) and all(_plain(v) for v in kw.values()):
+                key = (a, tuple(sorted(kw.items())))
+                hash(key)
+                return key
+        except Exception:  # noqa
+            pass
+        return None
+
+    def _current_space():
+        try:
+            from crosshair.statespace import context_statespace
+
+            return context_statespace()
+        except Exception:  # noqa
+            return None
 
     _xcore._PATCH_REGISTRATIONS[_lru_cache_wrapper.__call__] = _call_lru
 
@@ -101,7 +150,12 @@ def main():
     fn = getattr(mod, fn_name)
     if hasattr(mod, "warmup"):
         # force lazily-built state (pydantic validators, caches, dataclass machinery) before tracing
-        mod.warmup()
+        try:
+            mod.warmup()
+        except Exception:  # noqa  (a defect that breaks a warm-up call must surface through its obligation, not here)
+            import traceback
+
+            traceback.print_exc()
     import_s = time.perf_counter() - t_imp
 
     opts = AnalysisOptionSet(
